@@ -133,8 +133,8 @@ def run_job(job):
         logp2 = logp + '.nolog'
         rc2, out2, err2 = vlib.run_bin(binp, [a for a in args if not a.startswith('log=')] + ['log=' + logp2, 'useLogger=0'], timeout=600)
         try:
-            with open(logp) as f1: a1 = [l for l in f1 if l[0] not in 'tuwxrM']
-            with open(logp2) as f2: a2 = [l for l in f2 if l[0] not in 'tuwxrM']
+            with open(logp) as f1: a1 = [l for l in f1 if l[0] not in 'tuwxrMB']
+            with open(logp2) as f2: a2 = [l for l in f2 if l[0] not in 'tuwxrMB']
             res['summary']['stats']['C16.logger-detached-comparisons'] = 1
             res['summary']['stats']['C16.lines-compared-with-logger-detached'] = len(a1)
             if a1 != a2:
@@ -225,6 +225,67 @@ def adjudicate(V, prop, results, shapeset, flavours, extra):
 
 # ---------------------------------------------------------------------------------------------
 
+# ---------------------------------------------------------------------------------------------
+# C17: identifiers and structural metadata (light programs, no driver)
+
+def id_job(job):
+    sj, flavour = job
+    import idtu
+    binp, out = vlib.build_one(idtu.emit(sj), flavour, name=sj['name'])
+    if not binp: return (sj, flavour, None, 'build failed: ' + out[:1500])
+    rc, so, se = vlib.run_bin(binp, [], timeout=60)
+    if rc != 0: return (sj, flavour, None, 'exit %d %s' % (rc, se[-500:]))
+    try: return (sj, flavour, json.loads(so), '')
+    except Exception as ex: return (sj, flavour, None, 'bad output %r' % so[:200])
+
+def id_engine(prop, tier, seed):
+    import idtu
+    V = vlib.Verdict(prop, tier, seed)
+    vlib.prune_cache()
+    big = tier == 'thorough'
+    shapeset = idtu.id_shapes(seed, 60 if big else 14, big)
+    shapeset += [s for s in shp.shape_set(seed, 20 if big else 6, cfg_variants=False)]
+    flavours = ['id-clang', 'id-gcc'] + (['id-clang-dev', 'id-gcc17'] if big or vlib.join_differs() else [])
+    res = vlib.pmap(id_job, [(sj, fl) for sj in shapeset for fl in flavours])
+    values = 0; distinct = set(); samples = []
+    for sj, fl, d, err in res:
+        run = {'shape': sj['name'], 'desc': sj['desc'], 'flavour': fl, 'sj': sj, 'args': [], 'cfg': sj['cfg']}
+        if d is None:
+            # a legal shape within the documented limits that does not compile cannot be observed: inconclusive, reported
+            V.harness_errors.append('%s %s: %s' % (sj['name'], fl, err[:600].replace('\n', ' | '))); continue
+        nodes = sj['nodes']; exp = sj['expect']
+        def bad(key, detail): V.add(key, 1, detail, run)
+        for k in ('STATE_COUNT', 'REGION_COUNT', 'COMPO_COUNT', 'ORTHO_COUNT', 'ORTHO_UNITS', 'SERIAL_BITS', 'SERIAL_BYTES'):
+            values += 1
+            if d[k] != exp[k]: bad('count|%s-differs-from-the-declaration' % k, {'observed': d[k], 'expected': exp[k], 'shape': sj['desc'][:200]})
+        values += 1
+        if d['TASK_CAPACITY'] != 2 * exp['COMPO_PRONGS']: bad('count|default-TASK_CAPACITY-differs', {'observed': d['TASK_CAPACITY'], 'expected': 2 * exp['COMPO_PRONGS']})
+        for k, (a, b) in d['sid'].items():
+            values += 2
+            if a != int(k): bad('id|stateId-differs-from-depth-first-numbering', {'state': int(k), 'observed': a, 'shape': sj['desc'][:200]}); break
+            if b != a: bad('id|peer-with-same-structure-disagrees', {'state': int(k), 'observed': [a, b]}); break
+        for k, (a, b) in d['rid'].items():
+            values += 2
+            if a != int(k): bad('id|regionId-differs-from-depth-first-numbering', {'region': int(k), 'observed': a, 'shape': sj['desc'][:200]}); break
+            if b != a: bad('id|peer-with-same-structure-disagrees', {'region': int(k), 'observed': [a, b]}); break
+        for i, v in enumerate(d['seen']):
+            if v: 
+                values += 1
+                if v != i + 1: bad('id|control.stateId()-in-callback-differs', {'state': i, 'observed': v - 1}); break
+        if len(d['names']) != len(nodes): bad('structure|entry-count-differs', {'observed': len(d['names']), 'expected': len(nodes)})
+        else:
+            for i, nm in enumerate(d['names']):
+                n = nodes[i]
+                if not (n['kind'] != 'L' and n['headless']):
+                    values += 1
+                    if nm != '%dN%d' % (len('N%d' % i), i): bad('structure|order-differs-from-identifier-order', {'index': i, 'name': nm}); break
+        if d.get('asserts'): V.add_other('C11', 'assert|during-construction', d['asserts'])
+        distinct.add(sj['desc'])
+        if len(samples) < 3: samples.append({'shape': sj['name'], 'desc': sj['desc'][:300], 'flavour': fl, 'published': {k: d[k] for k in ('STATE_COUNT', 'REGION_COUNT', 'COMPO_COUNT', 'ORTHO_COUNT', 'ORTHO_UNITS', 'TASK_CAPACITY', 'SERIAL_BITS', 'SERIAL_BYTES')}, 'expected': exp})
+    cov = {'evaluations': values, 'distinct_nontrivial': len(distinct), 'rule': 'evaluations = published identifiers / counts compared with the values an independent Python computation derives from the declaration; distinct_nontrivial = distinct machine structures (each a separately compiled program, with a separately written peer of the same structure)',
+           'samples': samples, 'shapes': len(shapeset), 'flavours': flavours, 'max_states': max(len(s['nodes']) for s in shapeset), 'max_regions': max(len(s['regions']) for s in shapeset)}
+    return V.finish(cov, ['structures are sampled (curated wide / deep / orthogonal-width-around-8 shapes plus seeded random ones), not enumerated', 'a shape that fails to compile is reported as a harness error (exit 2), since nothing can be observed'])
+
 def main():
     ap = argparse.ArgumentParser()
     ap.add_argument('prop', nargs='?')
@@ -239,6 +300,8 @@ def main():
     if a.tier not in TIERS: a.tier = 'quick'
     if a.prop in SHAPE_PROPS:
         return shape_engine(a.prop, a.tier, a.seed, a.keep_logs)
+    if a.prop == 'C17':
+        return id_engine(a.prop, a.tier, a.seed)
     import units
     if a.prop in units.PROPS:
         return units.run(a.prop, a.tier, a.seed)
